@@ -18,7 +18,7 @@ Definition iri_tok (ns : nsdict) (u : str) : token :=
   end.
 
 Definition kind_of (t : str) : kind :=
-  if str_eqb t c_IRI_ELEM_TYPE then KIri else if str_eqb t c_BNODE_ELEM_TYPE then KBnode else KNonlit.
+  if str_eqb t c_IRI_ELEM_TYPE then NkIri else if str_eqb t c_BNODE_ELEM_TYPE then NkBnode else NkNonlit.
 
 Definition type_toks (ns : nsdict) (t : str) : list token :=
   if prefixb c_STARTING_CHAR_FOR_SHAPE_NAME t then
@@ -773,4 +773,268 @@ Theorem document_recognised z l : C05_dom z l = true ->
 Proof.
   intros H. destruct (render_lexes z l H) as [text [Hr Hl]]. exists text. split; [exact Hr|].
   unfold recognise. rewrite (lexes_lex _ _ Hl). unfold parses. destruct (doc_run z l H) as [-> _]. reflexivity.
+Qed.
+
+(** ** (C) closure of [doc_toks] *)
+Definition tok_good (ns : nsdict) (t : token) : bool :=
+  match t with
+  | TPrefixKw => false
+  | TPname p _ => mem_str p (map snd ns)
+  | _ => true
+  end.
+
+Lemma iri_tok_good ns u : tok_good ns (iri_tok ns u) = true.
+Proof.
+  unfold iri_tok. destruct (best_ns ns u) as [[n p]|] eqn:E; [|reflexivity]. cbn.
+  apply mem_str_In. destruct (best_ns_spec _ _ _ _ E) as [Hin _]. apply in_map_iff. exists (n, p). auto.
+Qed.
+
+Lemma type_toks_good ns t : forallb (tok_good ns) (type_toks ns t) = true.
+Proof.
+  unfold type_toks. destruct (prefixb _ t); [destruct (strip_label t)|destruct (mem_str t kinds)];
+    cbn [forallb tok_good]; rewrite ?iri_tok_good; reflexivity.
+Qed.
+
+Lemma target_toks_good z prop t : forallb (tok_good (z_ns z)) (target_toks z prop t) = true.
+Proof.
+  unfold target_toks. destruct (str_eqb prop (z_tau z)); [|apply type_toks_good].
+  cbn [forallb tok_good]. rewrite forallb_app, type_toks_good. reflexivity.
+Qed.
+
+Lemma or_join_good ns (l : list (list token)) :
+  (forall x, In x l -> forallb (tok_good ns) x = true) -> forallb (tok_good ns) (or_join l) = true.
+Proof.
+  induction l as [|x l IH]; intros H; [reflexivity|]. destruct l as [|y r].
+  - apply H. left. reflexivity.
+  - rewrite or_join_cons2, !forallb_app. rewrite (H x (or_introl eq_refl)). cbn [forallb tok_good andb].
+    apply IH. intros x' Hx'. apply H. right. exact Hx'.
+Qed.
+
+Lemma card_toks_good ns c : forallb (tok_good ns) (card_toks c) = true.
+Proof. destruct c as [k| | |]; try reflexivity. cbn. destruct (N.eqb k 1); reflexivity. Qed.
+
+Lemma stmt_toks_good z s b : forallb (tok_good (z_ns z)) (stmt_toks z s b) = true.
+Proof.
+  unfold stmt_toks. rewrite !forallb_app. cbn [forallb]. rewrite iri_tok_good, card_toks_good.
+  assert (H1 : forallb (tok_good (z_ns z)) (if s_inv s then [TCaret] else []) = true) by (destruct (s_inv s); reflexivity).
+  assert (H2 : forallb (tok_good (z_ns z)) (if b then [] else [TSemi]) = true) by (destruct b; reflexivity).
+  rewrite H1, H2. cbn [andb]. rewrite andb_true_r. destruct (s_choice s); [|apply target_toks_good].
+  apply or_join_good. intros x Hx. apply in_map_iff in Hx. destruct Hx as [t [<- _]]. apply target_toks_good.
+Qed.
+
+Lemma stmts_toks_good z l : forallb (tok_good (z_ns z)) (stmts_toks z l) = true.
+Proof.
+  induction l as [|s l IH]; [reflexivity|]. destruct l as [|s2 r]; [apply stmt_toks_good|].
+  rewrite stmts_toks_cons2, forallb_app, stmt_toks_good, IH. reflexivity.
+Qed.
+
+Lemma shapes_toks_good z l : forallb (tok_good (z_ns z)) (flat_map (shape_toks z) l) = true.
+Proof.
+  induction l as [|sh l IH]; [reflexivity|]. cbn [flat_map]. rewrite forallb_app, IH, andb_true_r.
+  unfold shape_toks. cbn [forallb]. rewrite forallb_app, stmts_toks_good.
+  unfold label_tok. destruct (strip_label (sh_name sh)); [rewrite iri_tok_good|]; reflexivity.
+Qed.
+
+Lemma good_decls ns ts : forallb (tok_good ns) ts = true -> decls ts = [].
+Proof.
+  induction ts as [|t ts IH]; [reflexivity|]. cbn [forallb]. intros H. apply andb_true_iff in H.
+  destruct H as [Ht Hts]. destruct t; try discriminate Ht; cbn [decls]; apply IH, Hts.
+Qed.
+
+Lemma good_used ns ts : forallb (tok_good ns) ts = true ->
+  forall b, forallb (fun p => mem_str p (map snd ns)) (used b ts) = true.
+Proof.
+  induction ts as [|t ts IH]; [reflexivity|]. cbn [forallb]. intros H b. apply andb_true_iff in H.
+  destruct H as [Ht Hts]. destruct t; try discriminate Ht; cbn [used]; try apply IH, Hts.
+  destruct b; [apply IH, Hts|]. cbn [forallb]. cbn [tok_good] in Ht. rewrite Ht. apply IH, Hts.
+Qed.
+
+Definition swap (np : str * str) : str * str := (snd np, fst np).
+
+Lemma decls_doc z l : decls (doc_toks z l) = map swap (z_ns z).
+Proof.
+  unfold doc_toks, prefix_toks. induction (z_ns z) as [|[n p] ns IH].
+  - cbn [flat_map app map]. apply (good_decls (z_ns z)), shapes_toks_good.
+  - cbn [flat_map app map fst snd decls]. unfold swap at 1. cbn [fst snd]. f_equal. exact IH.
+Qed.
+
+Lemma used_doc z l :
+  used false (doc_toks z l) = used false (flat_map (shape_toks z) l).
+Proof.
+  unfold doc_toks, prefix_toks. induction (z_ns z) as [|[n p] ns IH]; [reflexivity|].
+  cbn [flat_map app fst snd used]. exact IH.
+Qed.
+
+Lemma nodupb_NoDup l : nodupb l = true <-> NoDup l.
+Proof.
+  induction l as [|x l IH]; cbn [nodupb].
+  - split; [constructor|reflexivity].
+  - rewrite andb_true_iff, negb_true_iff, IH. split.
+    + intros [H1 H2]. constructor; [|exact H2]. intros Hc. apply mem_str_In in Hc. congruence.
+    + intros H. inversion H; subst. split; [|assumption]. destruct (mem_str x l) eqn:E; [|reflexivity].
+      apply mem_str_In in E. contradiction.
+Qed.
+
+Lemma lookup_swap ns n p : NoDup (map snd ns) -> In (n, p) ns -> lookup (map swap ns) p = Some n.
+Proof.
+  induction ns as [|[n' p'] ns IH]; [intros _ []|]. cbn [map snd]. intros Hnd Hin. inversion Hnd as [|? ? Hn Hd]; subst.
+  cbn [lookup swap fst snd]. destruct (str_eqb p p') eqn:E.
+  - apply str_eqb_eq in E. subst p'. destruct Hin as [Heq|Hin]; [inversion Heq; reflexivity|].
+    exfalso. apply Hn. apply in_map_iff. exists (n, p). auto.
+  - destruct Hin as [Heq|Hin]; [inversion Heq; subst; rewrite str_eqb_refl in E; discriminate|]. apply IH; assumption.
+Qed.
+
+Lemma ns_ok_nodup ns : ns_ok ns = true -> NoDup (map snd ns).
+Proof. unfold ns_ok. intros H. apply andb_true_iff in H. apply nodupb_NoDup. tauto. Qed.
+
+(** a printed IRI token denotes its IRI under the document's declarations *)
+Lemma denot_iri_tok ns u : ns_ok ns = true -> denot (map swap ns) (iri_tok ns u) = Some u.
+Proof.
+  intros Hns. unfold iri_tok. destruct (best_ns ns u) as [[n p]|] eqn:E; [|reflexivity].
+  destruct (best_ns_spec _ _ _ _ E) as [Hin [Hu _]]. cbn [denot].
+  rewrite (lookup_swap ns n p (ns_ok_nodup ns Hns) Hin). rewrite <- Hu. reflexivity.
+Qed.
+
+Definition unlabel (k : str) : str := match strip_label k with Some u => u | None => [] end.
+
+Lemma label_ok_unlabel ns k : label_ok ns k = true -> k = Str "%<" ++ unlabel k ++ Str ">" /\ label_tok ns k = iri_tok ns (unlabel k).
+Proof.
+  unfold label_ok, unlabel, label_tok. destruct (strip_label k) as [u|] eqn:E; [|discriminate]. intros _.
+  split; [apply strip_label_spec, E|reflexivity].
+Qed.
+
+Lemma somes_map_all {A B} (f : A -> option B) (g : A -> B) l :
+  (forall x, In x l -> f x = Some (g x)) -> somes (map f l) = map g l.
+Proof.
+  induction l as [|x l IH]; intros H; [reflexivity|]. cbn [map somes]. rewrite (H x (or_introl eq_refl)).
+  f_equal. apply IH. intros y Hy. apply H. right. exact Hy.
+Qed.
+
+Lemma somes_In {A B} (f : A -> option B) l y : In y (somes (map f l)) -> exists x, In x l /\ f x = Some y.
+Proof.
+  induction l as [|x l IH]; [intros []|]. cbn [map somes]. destruct (f x) as [b|] eqn:E.
+  - intros [Hb|H].
+    + subst b. exists x. split; [left; reflexivity|exact E].
+    + destruct (IH H) as [x' [H1 H2]]. exists x'. split; [right; exact H1|exact H2].
+  - intros H. destruct (IH H) as [x' [H1 H2]]. exists x'. split; [right; exact H1|exact H2].
+Qed.
+
+Lemma label_iris_doc z l : C05_dom z l = true ->
+  label_iris (doc_toks z l) = map (fun sh => unlabel (sh_name sh)) l.
+Proof.
+  intros H. destruct (doc_run z l H) as [_ [Hl _]]. destruct (C05_dom_parts z l H) as [Hns Hs].
+  unfold label_iris. rewrite Hl, decls_doc, map_map. apply somes_map_all. intros sh Hin.
+  rewrite forallb_forall in Hs. destruct (shape_ok_parts z sh (Hs sh Hin)) as [Hlab _].
+  destruct (label_ok_unlabel _ _ Hlab) as [_ ->]. apply denot_iri_tok, Hns.
+Qed.
+
+(** every reference token comes from a shape-typed value of the shape list *)
+Lemma type_refs_In ns t r : type_ok ns t = true -> In r (type_refs ns t) ->
+  prefixb c_STARTING_CHAR_FOR_SHAPE_NAME t = true /\ r = iri_tok ns (unlabel t).
+Proof.
+  unfold type_ok, type_refs, unlabel, label_ok. destruct (prefixb _ t); [|intros _ []].
+  destruct (strip_label t); [|discriminate]. intros _ [<-|[]]. auto.
+Qed.
+
+Lemma target_refs_In z prop t r : target_dom z prop t = true -> In r (target_refs z prop t) ->
+  prefixb c_STARTING_CHAR_FOR_SHAPE_NAME t = true /\ r = iri_tok (z_ns z) (unlabel t).
+Proof.
+  unfold target_dom, target_refs. destruct (str_eqb prop (z_tau z)); [intros _ []|apply type_refs_In].
+Qed.
+
+Lemma stmt_refs_In z s r : stmt_ok z s = true -> In r (stmt_refs z s) ->
+  exists t, In t (s_types s) /\ prefixb c_STARTING_CHAR_FOR_SHAPE_NAME t = true /\ r = iri_tok (z_ns z) (unlabel t).
+Proof.
+  intros Hs. destruct (stmt_ok_parts z s Hs) as [_ [Hne [Hty _]]]. rewrite forallb_forall in Hty.
+  unfold stmt_refs. destruct (s_choice s).
+  - intros H. apply in_flat_map in H. destruct H as [t [Ht Hr]]. exists t. split; [exact Ht|].
+    apply (target_refs_In z (s_prop s) t r (Hty t Ht) Hr).
+  - intros H. assert (Hin : In (s_type s) (s_types s)).
+    { unfold s_type. destruct (s_types s); [congruence|left; reflexivity]. }
+    exists (s_type s). split; [exact Hin|]. apply (target_refs_In z (s_prop s) _ r (Hty _ Hin) H).
+Qed.
+
+(** the list-level hypotheses (proved for the pipeline on branch b-pc, Proofs/ClosureLemmas.v) *)
+Definition refs_closed (l : list shape) : Prop :=
+  forall sh st k, In sh l -> In st (sh_stmts sh) -> In k (s_types st) -> is_shape_type k = true ->
+                  exists sh', In sh' l /\ sh_name sh' = k.
+
+Lemma NoDup_map_inj_on {A B} (f : A -> B) l :
+  (forall x y, In x l -> In y l -> f x = f y -> x = y) -> NoDup l -> NoDup (map f l).
+Proof.
+  induction l as [|x l IH]; intros Hinj Hnd; [constructor|]. inversion Hnd; subst. cbn. constructor.
+  - intros Hc. apply in_map_iff in Hc. destruct Hc as [y [Hy Hin]].
+    assert (y = x) by (apply Hinj; [right; exact Hin|left; reflexivity|exact Hy]). subst. contradiction.
+  - apply IH; [|assumption]. intros a b Ha Hb. apply Hinj; right; assumption.
+Qed.
+
+(** W4: the rendered document is closed *)
+Theorem doc_closed z l : C05_dom z l = true -> refs_closed l -> NoDup (map sh_name l) ->
+  closed_tokens (doc_toks z l) = true.
+Proof.
+  intros H Hrc Hnd. destruct (C05_dom_parts z l H) as [Hns Hs]. pose proof Hs as Hs'. rewrite forallb_forall in Hs.
+  unfold closed_tokens. repeat (apply andb_true_iff; split).
+  - unfold prefixes_functional. rewrite decls_doc, map_map. unfold swap. cbn [fst].
+    unfold ns_ok in Hns. apply andb_true_iff in Hns. apply Hns.
+  - unfold prefixes_declared. rewrite decls_doc, map_map. unfold swap. cbn [fst]. rewrite used_doc.
+    apply good_used, shapes_toks_good.
+  - unfold labels_distinct. rewrite (label_iris_doc z l H). apply nodupb_NoDup.
+    rewrite <- (map_map sh_name unlabel). apply NoDup_map_inj_on; [|exact Hnd].
+    intros x y Hx Hy Heq. apply in_map_iff in Hx, Hy. destruct Hx as [sx [<- Hsx]]. destruct Hy as [sy [<- Hsy]].
+    destruct (shape_ok_parts z sx (Hs sx Hsx)) as [Lx _]. destruct (shape_ok_parts z sy (Hs sy Hsy)) as [Ly _].
+    destruct (label_ok_unlabel _ _ Lx) as [-> _]. destruct (label_ok_unlabel _ _ Ly) as [Ey _].
+    rewrite Ey at 1. rewrite Heq. reflexivity.
+  - unfold refs_resolve. apply forallb_forall. intros r Hr. apply mem_str_In.
+    rewrite (label_iris_doc z l H). unfold ref_iris in Hr. destruct (doc_run z l H) as [_ [_ Hrf]].
+    rewrite Hrf, decls_doc in Hr. apply somes_In in Hr. destruct Hr as [tok [Htok Hden]].
+    apply in_flat_map in Htok. destruct Htok as [sh [Hsh Htok]]. unfold shape_refs in Htok.
+    apply in_flat_map in Htok. destruct Htok as [st [Hst Htok]].
+    destruct (shape_ok_parts z sh (Hs sh Hsh)) as [_ Hss]. rewrite forallb_forall in Hss.
+    destruct (stmt_refs_In z st tok (Hss st Hst) Htok) as [k [Hk [Hpk ->]]].
+    rewrite (denot_iri_tok _ _ Hns) in Hden. inversion Hden; subst r.
+    destruct (Hrc sh st k Hsh Hst Hk Hpk) as [sh' [Hin' <-]].
+    apply in_map_iff. exists sh'. auto.
+Qed.
+
+Theorem document_wellformed_closed z l : C05_dom z l = true -> refs_closed l -> NoDup (map sh_name l) ->
+  exists text, render z l = Some text /\ wellformed_closed text = true.
+Proof.
+  intros H Hrc Hnd. destruct (render_lexes z l H) as [text [Hr Hl]]. exists text. split; [exact Hr|].
+  unfold wellformed_closed. rewrite (lexes_lex _ _ Hl). unfold parses. destruct (doc_run z l H) as [-> _].
+  cbn [andb]. apply doc_closed; assumption.
+Qed.
+
+(** ** the whole run *)
+From Shexer Require Import Model.Run.
+
+Lemma refs_closedb_sound l : refs_closedb l = true -> refs_closed l.
+Proof.
+  unfold refs_closedb, refs_closed. intros H sh st k Hsh Hst Hk Hp. rewrite forallb_forall in H.
+  assert (Hin : In k (shape_types l)).
+  { unfold shape_types. apply in_flat_map. exists sh. split; [exact Hsh|]. apply in_flat_map. exists st.
+    split; [exact Hst|]. apply filter_In. split; [exact Hk|exact Hp]. }
+  specialize (H k Hin). apply mem_str_In in H. apply in_map_iff in H. destruct H as [sh' [H1 H2]]. exists sh'. auto.
+Qed.
+
+Lemma labels_nodupb_sound l : labels_nodupb l = true -> NoDup (map sh_name l).
+Proof. apply nodupb_NoDup. Qed.
+
+Definition z_of (c : rcfg) (ns : nsdict) : sercfg :=
+  {| z_ns := ns; z_tau := r_tau c; z_disable_comments := r_disable_comments c; z_mode := r_mode c |}.
+
+Theorem run_wellformed_closed fa c thr g ns shapes :
+  run_shapes fa c thr g = inl (ns, shapes) -> C05_dom (z_of c ns) shapes = true ->
+  refs_closed shapes -> NoDup (map sh_name shapes) ->
+  exists text, run_shexc fa c thr g = inl text /\ wellformed_closed text = true.
+Proof.
+  intros Hr Hd Hrc Hnd. destruct (document_wellformed_closed _ _ Hd Hrc Hnd) as [text [Ht Hw]].
+  exists text. split; [|exact Hw]. unfold run_shexc. rewrite Hr. unfold z_of in Ht. rewrite Ht. reflexivity.
+Qed.
+
+Theorem run_recognised fa c thr g ns shapes :
+  run_shapes fa c thr g = inl (ns, shapes) -> C05_dom (z_of c ns) shapes = true ->
+  exists text, run_shexc fa c thr g = inl text /\ recognise text = true.
+Proof.
+  intros Hr Hd. destruct (document_recognised _ _ Hd) as [text [Ht Hw]].
+  exists text. split; [|exact Hw]. unfold run_shexc. rewrite Hr. unfold z_of in Ht. rewrite Ht. reflexivity.
 Qed.
